@@ -32,7 +32,7 @@ def obligations(c, facts, b, prefix):
         dispk = None
     outcomes = {}
     try:
-        for case in ("ok", "err"):
+        for case in ("ok", "err", "err-cut"):
             pr = P.Probe(facts, None, pubf.module)
             arg = P.Opq("argument")
             # the inner result as the record it is (a pair, or a struct of the crate): one unknown per component
@@ -42,24 +42,28 @@ def obligations(c, facts, b, prefix):
                 R = [RO if a_ == rec["opts"] else RT for a_, _ in rec["fields"]]
             else:
                 R = dict({"__ty": rec["name"]}, **{a_: (RO if a_ == rec["opts"] else RT) for a_, _ in rec["fields"]})
-            E = P.Opq("inner error")
+            # the inner error as winnow hands it over: the context error inside Backtrack or Cut (Incomplete needs a Partial
+            # stream: C03.not-partial)
+            CTX = P.Opq("inner error")
+            E = ("enum", "ErrMode::Cut" if case == "err-cut" else "ErrMode::Backtrack", [CTX])
             seen = {}
             pr.intercept[innerk] = lambda a, case=case, seen=seen: (seen.__setitem__("inner", list(a)), ("ok", R) if case == "ok" else ("err", E))[1]
             if dispk:
                 pr.intercept[dispk] = lambda a, seen=seen: (seen.__setitem__("dispatch", list(a)), P.Opq("dispatched", ("call", dispk, list(a))))[1]
             out = pr.invoke(pubf, None, [arg] + [P.Opq("extra") for _ in pubf.params[1:]])
-            outcomes[case] = (out, seen, arg, (RO, RT), E)
+            outcomes[case] = (out, seen, arg, (RO, RT), CTX)
         out, seen, arg, R, E = outcomes["ok"]
         ok1 = isinstance(out, tuple) and out[0] == "ok" and isinstance(out[1], list) and len(out[1]) == 2 and out[1][0] is R[0] and out[1][1] is R[1] and seen.get("inner") == [arg] and seen["inner"][0] is arg
-        out, seen, arg, R, E = outcomes["err"]
-
         def rooted(v, root):
             while isinstance(v, P.Opq) and v is not root and v.expr and v.expr[0] == "mcall" and v.expr[1] in ("into_inner", "unwrap", "expect", "unwrap_or_default"):
                 v = v.expr[2]
             return v is root
 
-        d = out[1] if isinstance(out, tuple) and out[0] == "err" else None
-        ok2 = isinstance(d, P.Opq) and d.expr and d.expr[0] == "call" and d.expr[1] == dispk and len(seen.get("dispatch", [])) == 2 and rooted(seen["dispatch"][0], E) and seen["dispatch"][1] is arg and seen.get("inner") and seen["inner"][0] is arg
+        ok2 = True
+        for case_ in ("err", "err-cut"):
+            out, seen, arg, R, E = outcomes[case_]
+            d = out[1] if isinstance(out, tuple) and out[0] == "err" else None
+            ok2 = ok2 and bool(isinstance(d, P.Opq) and d.expr and d.expr[0] == "call" and d.expr[1] == dispk and len(seen.get("dispatch", [])) == 2 and rooted(seen["dispatch"][0], E) and seen["dispatch"][1] is arg and seen.get("inner") and seen["inner"][0] is arg)
         okapi = bool(ok1 and ok2)
         det = "%s evaluated with %s and %s replaced by unknowns: on success the inner result is returned as it is: %s; on failure the error is %s(inner error, the input the inner parser worked on): %s" % (pubk, innerk.split("::")[-1], (dispk or "?").split("::")[-1], bool(ok1), (dispk or "?").split("::")[-1], bool(ok2))
     except (P.NoEval, P.Panic) as ex:
@@ -68,6 +72,15 @@ def obligations(c, facts, b, prefix):
     # ---- G2
     from .rules import c06
 
+    from . import innerval
+
+    EV, why_not = innerval.cached(facts, b, an)
+    if EV is not None:
+        # the inner function itself was run (vlib/innerval.py): its result and what it hands to the precedence parser are read
+        # off the runs, whatever way the statements are written
+        c.ob(rule, innerk, "the tree returned is the precedence parser's result", EV["ok_tree"], innerval.how(EV) + (" — " + EV["detail"] if not EV["ok_tree"] else ""))
+        c.ob(rule, innerk, "the lexer's tokens reach the precedence parser unchanged (options aside)", EV["ok_tokens"] and EV["ok_empty"], innerval.how(EV) + (" — " + EV["detail"] if not (EV["ok_tokens"] and EV["ok_empty"]) else ""), witness="! ! -true" if not (EV["ok_tokens"] and EV["ok_empty"]) else None)
+        return
     S = c06.inner_summary(b, facts.fn(innerk))
     okr = bool(S.ret) and len(S.ret) == 2 and S.ret[1]["v"] == "applied" and S.ret[1]["fn"] == entry and not S.unknown
     c.ob(rule, innerk, "the tree returned is the precedence parser's result", okr, "returned tree comes from %s; statements not understood: %s" % (S.ret[1].get("fn") if S.ret and len(S.ret) == 2 else None, S.unknown or "none"))
